@@ -4,6 +4,7 @@ import (
 	"go/ast"
 	"go/token"
 	"go/types"
+	"sort"
 	"strings"
 
 	"verif/checker/fw"
@@ -18,6 +19,10 @@ func init() {
 			"parallel fetches and defer groups use a plain errgroup.Group (siblings are never cancelled) that is joined on every path; a failed single-flight leader always releases its followers. " +
 			"It does not decide that unaffected data is identical nor that requests under fault are a subset of the fault-free requests (value level).",
 		Mutants: []Mutant{
+			{Name: "a fetch whose response could not be used is not recorded as failed (reverts part of the F95 fix)", File: loaderGo, Rule: "C07-R12", Key: "Loader.mergeResult/failure-recorded-before-exit#2",
+				Old: "\t// the fetch failed as a whole, however that was found out: what depends on it is not fetched\n\t// (mergeResult runs with the data lock held)\n\tl.recordErroredFetchIDLocked(fetchItem)\n", New: ""},
+			{Name: "a response with errors and no data is not recorded as a failed fetch (reverts part of the F95 fix)", File: loaderGo, Rule: "C07-R12", Key: "Loader.mergeResult/errors-only-recorded-before-exit",
+				Old: "\t\tif hasErrors {\n\t\t\tl.recordErroredFetchIDLocked(fetchItem)\n\t\t}\n\t\treturn nil\n", New: "\t\treturn nil\n"},
 			{Name: "an entity array without any element counts as a null entity (reverts part of the F74 fix)", File: "v2/pkg/engine/resolve/loader.go", Rule: "C07-R11", Key: "isEmptyEntityFetch/benign-only-with-an-element",
 				Old: "entitiesData.Type() == astjson.TypeArray && len(entitiesData.GetArray()) > 0 {", New: "entitiesData.Type() == astjson.TypeArray {"},
 			{Name: "the null-entity exit is taken before the status code is looked at (reverts part of the F74 fix)", File: "v2/pkg/engine/resolve/loader.go", Rule: "C07-R11", Key: "Loader.mergeResult/benign-exit-after-status-fallback",
@@ -58,6 +63,7 @@ func init() {
 
 func runC07(r *fw.Run) {
 	defer c07EmptyEntityFetchIsNotBenign(r)
+	defer c07EveryWholeFetchFailureIsRecorded(r)
 	p := r.Prog
 	pk := p.Pkg("resolve")
 	if pk == nil {
@@ -937,4 +943,161 @@ func c07EmptyEntityFetchIsNotBenign(r *fw.Run) {
 		in.Run(nil)
 	}
 	r.Expect("C07-R11", "call sites of the null-entity predicate", n, 1)
+}
+
+// c07EveryWholeFetchFailureIsRecorded (R12): the loader skips a fetch whose dependency failed (R4) by looking the dependency
+// up in Loader.erroredFetchIDs. A failure that is not recorded there fabricates the dependent request: the entity fetch for
+// a @requires field is sent with `"title":null` for every entity although no title was ever null. Transport errors were
+// recorded (loadPhase); everything mergeResult finds out — empty body, a body that is not JSON, a non-2xx fallback, data of
+// the wrong shape, the wrong entity count, errors without data — was not. Rule, over the paths of mergeResult: (a) every
+// exit that follows a whole-fetch failure renderer (renderErrors… of the Loader) without a merge has passed
+// recordErroredFetchID(Locked), directly or inside a callee that passes it on all its paths; (b) every nil exit on the
+// null-data edge that is not the benign empty-entity edge is reached after the record or on the edge "the response had no
+// errors" (one correlated fact). The transport-error edge counts as recorded: loadPhase did that (R4). Rejected
+// (authorization, rate limit) and skipped fetches are not this rule's business.
+func c07EveryWholeFetchFailureIsRecorded(r *fw.Run) {
+	p := r.Prog
+	r.Rule("C07-R12", "every exit of mergeResult that follows a whole-fetch failure renderer without a merge, and the errors-without-data exit, has recorded the fetch in erroredFetchIDs (directly or in a callee that does on all paths), so that its dependants are skipped")
+	fi := p.Func("resolve", "Loader.mergeResult")
+	if fi == nil {
+		r.Error("C07-R12: Loader.mergeResult not found")
+		return
+	}
+	info := fi.Info()
+	isRecord := func(fn *types.Func) bool {
+		return fn != nil && fw.RecvNameOfFunc(fn) == "Loader" && (fn.Name() == "recordErroredFetchIDLocked" || fn.Name() == "recordErroredFetchID")
+	}
+	// callees that record on all paths
+	recordsAlways := map[*types.Func]bool{}
+	for changed := true; changed; {
+		changed = false
+		for _, g := range p.Funcs("resolve") {
+			if recordsAlways[g.Obj] || fw.RecvNameOfFunc(g.Obj) != "Loader" || !strings.HasPrefix(g.Obj.Name(), "renderErrors") {
+				continue
+			}
+			ginfo := g.Info()
+			all := true
+			in := fw.NewInterp(g)
+			in.H = fw.Hooks{
+				Lit: func(l *ast.FuncLit, ctx fw.LitCtx, st *fw.State) fw.LitMode { return fw.LitSkip },
+				Node: func(nd ast.Node, st *fw.State) {
+					if c, ok := nd.(*ast.CallExpr); ok {
+						if fn := fw.Callee(ginfo, c); isRecord(fn) || recordsAlways[fn] {
+							st.Set("recorded")
+						}
+					}
+				},
+				Exit: func(ret *ast.ReturnStmt, lit *ast.FuncLit, st *fw.State) {
+					if lit == nil && in.Final() && !st.Must("recorded") {
+						all = false
+					}
+				},
+			}
+			in.Run(nil)
+			if all {
+				recordsAlways[g.Obj] = true
+				changed = true
+			}
+		}
+	}
+	// the "response has errors" flag: a bool local assigned from len(….GetArray()) > 0
+	var errsFlag types.Object
+	fw.WalkAll(fi.Decl.Body, func(nd ast.Node) bool {
+		as, ok := nd.(*ast.AssignStmt)
+		if !ok || len(as.Lhs) != 1 || len(as.Rhs) != 1 {
+			return true
+		}
+		b, isB := ast.Unparen(as.Rhs[0]).(*ast.BinaryExpr)
+		if !isB || b.Op != token.GTR || !mentionsCallNamed(info, b.X, "GetArray") {
+			return true
+		}
+		if id, isID := as.Lhs[0].(*ast.Ident); isID {
+			errsFlag = info.ObjectOf(id)
+		}
+		return true
+	})
+	if errsFlag == nil {
+		r.Error("C07-R12: the flag that says the response has errors was not found in mergeResult")
+		return
+	}
+	nFail, nNull := 0, 0
+	in := fw.NewInterp(fi)
+	in.H = fw.Hooks{
+		Lit: func(l *ast.FuncLit, ctx fw.LitCtx, st *fw.State) fw.LitMode { return fw.LitSkip },
+		Cond: func(e ast.Expr, branch bool, st *fw.State) {
+			a := fw.Atom(info, e, branch)
+			if fw.AtomField("NonNil", "resolve", "result", "err")(info, a) {
+				// a transport error: recorded by loadPhase before it returned (C07-R4)
+				st.Set("recorded")
+			}
+			switch a.Kind {
+			case "True", "False":
+				if id, ok := ast.Unparen(a.X).(*ast.Ident); ok && info.ObjectOf(id) == errsFlag && a.Kind == "False" {
+					st.Set("settled")
+				}
+				if a.Kind == "True" && mentionsCallNamed(info, a.X, "ValueIsNull") {
+					st.Set("data-null")
+				}
+				if a.Kind == "True" && (mentionsCall(info, a.X, "resolve", "isEmptyEntityFetch") || mentionsCall(info, a.X, "resolve", "result.emptyAliasIsBenign")) {
+					st.Set("empty-entities")
+				}
+			}
+		},
+		Node: func(nd ast.Node, st *fw.State) {
+			c, ok := nd.(*ast.CallExpr)
+			if !ok {
+				return
+			}
+			fn := fw.Callee(info, c)
+			if fn == nil {
+				return
+			}
+			switch {
+			case isRecord(fn) || recordsAlways[fn]:
+				st.Set("recorded")
+				st.Set("settled")
+			}
+			if fw.RecvNameOfFunc(fn) == "Loader" && strings.HasPrefix(fn.Name(), "renderErrors") {
+				st.Set("failure-rendered")
+			}
+			if fn.Name() == "MergeValuesWithPath" || fw.FuncIs(fn, "resolve", "DataBuffer.Set") {
+				st.Set("merged")
+			}
+		},
+		Exit: func(ret *ast.ReturnStmt, lit *ast.FuncLit, st *fw.State) {
+			if lit != nil || !in.Final() || ret == nil {
+				return
+			}
+			retIsRenderer := false
+			if len(ret.Results) == 1 {
+				if c, ok := ast.Unparen(ret.Results[0]).(*ast.CallExpr); ok {
+					if fn := fw.Callee(info, c); fn != nil && fw.RecvNameOfFunc(fn) == "Loader" && strings.HasPrefix(fn.Name(), "renderErrors") {
+						retIsRenderer = true
+					}
+				}
+			}
+			retIsNil := len(ret.Results) == 1 && info.Types[ret.Results[0]].IsNil()
+			// an exit that hands on another error (an internal one: the operation is aborted) is not a verdict about the fetch
+			if st.Must("failure-rendered") && !st.May("merged") && (retIsRenderer || retIsNil) {
+				nFail++
+				r.Check(st.Must("recorded"), "C07-R12", "Loader.mergeResult/failure-recorded-before-exit", p.Pos(ret.Pos()), "the exit of mergeResult after a whole-fetch failure has recorded the fetch as failed",
+					"mergeResult leaves after rendering a whole-fetch failure (empty body, not JSON, status fallback, wrong shape or entity count) without recording the fetch in erroredFetchIDs: shouldSkipErroredDependencyLocked does not skip its dependants — `{ accounts { id full } }` with `full @requires(fields: \"title\")`, the title fetch answering HTTP 500: the `full` entity fetch is sent with `\"title\":null` for every entity, a request the fault-free run never sends, and a second error for it is added")
+				return
+			}
+			if tv := info.Types[ret.Results[0]]; len(ret.Results) == 1 && tv.IsNil() && st.Must("data-null") && !st.May("empty-entities") && !st.May("merged") {
+				nNull++
+				r.Check(st.Must("settled"), "C07-R12", "Loader.mergeResult/errors-only-recorded-before-exit", p.Pos(ret.Pos()), "the errors-without-data exit of mergeResult has recorded the fetch as failed",
+					"mergeResult returns on the null-data edge on a path on which the response had errors and the fetch was not recorded in erroredFetchIDs: `{\"errors\":[{\"message\":\"boom\"}]}` or `{\"data\":null,\"errors\":[…]}` from the title fetch — the dependent `full` fetch is sent with `\"title\":null`")
+			}
+		},
+	}
+	in.Run(nil)
+	r.Expect("C07-R12", "exits of mergeResult after a whole-fetch failure renderer", nFail, 8)
+	r.Expect("C07-R12", "nil exits of mergeResult on the null-data edge", nNull, 1)
+	var names []string
+	for fn := range recordsAlways {
+		names = append(names, fn.Name())
+	}
+	sort.Strings(names)
+	r.Note("C07-R12: renderers that record on all paths: %v", names)
 }
